@@ -390,11 +390,12 @@ ForceAllThunks(cx, i, w) ==
          IF ~r.ok THEN WithCtx(r, StmtCtx(th.dbg))
          ELSE ForceAllThunks(cx, i + 1, [r.w EXCEPT !.store[i] = [st |-> "forced", lz |-> LVal(r.v), v |-> r.v, dbg |-> th.dbg]])
 
-\* scoped_store.evaluate_all: every name (the implementation iterates a hash map; the order is not specified)
+\* scoped_store.evaluate_all: every name, in sorted order (cx.c.svnames lists the file's scoped names sorted)
 RECURSIVE ForceAllScoped(_, _, _)
 ForceAllScoped(cx, names, w) ==
   IF names = {} THEN Ok(VNull, w)
-  ELSE LET nm == CHOOSE x \in names : TRUE
+  ELSE LET Pos(x) == CHOOSE i \in 1..Len(cx.c.svnames) : cx.c.svnames[i] = x
+           nm == CHOOSE x \in names : \A y \in names : Pos(x) <= Pos(y)
            r == ForceScopedName(cx, nm, w)
        IN IF ~r.ok THEN r ELSE ForceAllScoped(cx, names \ {nm}, r.w)
 
